@@ -7,8 +7,15 @@ import (
 	"errors"
 	"fmt"
 	"io"
+	"compress/gzip"
+	"compress/zlib"
 	"net"
 	"net/http"
+	"net/url"
+	"os"
+	"path/filepath"
+	"regexp"
+	"sort"
 	"strings"
 	"testing"
 	"time"
@@ -255,6 +262,11 @@ func isIntText(v string) bool {
 
 // rawHTTP sends one request on its own connection and reads the whole response.
 func rawHTTP(addr, method, path string, body []byte, timeout time.Duration) (status int, respBody []byte, err error) {
+	return rawHTTPWith(addr, method, path, nil, body, timeout)
+}
+
+// rawHTTPWith: rawHTTP with extra header lines ("Name: value").
+func rawHTTPWith(addr, method, path string, extra []string, body []byte, timeout time.Duration) (status int, respBody []byte, err error) {
 	c, err := net.DialTimeout("tcp", addr, 5*time.Second)
 	if err != nil {
 		return 0, nil, err
@@ -265,6 +277,9 @@ func rawHTTP(addr, method, path string, body []byte, timeout time.Duration) (sta
 	fmt.Fprintf(&req, "%s %s HTTP/1.1\r\nHost: x\r\nConnection: close\r\n", method, path)
 	if body != nil || method == "POST" || method == "PUT" || method == "PATCH" {
 		fmt.Fprintf(&req, "Content-Type: application/json\r\nContent-Length: %d\r\n", len(body))
+	}
+	for _, h := range extra {
+		req.WriteString(h + "\r\n")
 	}
 	req.WriteString("\r\n")
 	done := make(chan error, 1)
@@ -961,4 +976,290 @@ func TestC19_HexFields(t *testing.T) {
 		}
 	}
 	c19Hex.rec().Exhaustive()
+}
+
+
+// ---------------------------------------------------------------------------
+// Parameters the harness's request model does not know. A dictionary is taken from the service's own source (string
+// literals handed to query / post argument accessors, JSON field tags): every such name is sent as a query parameter of
+// every GET endpoint and as a field of every POST body (top level, inside "input", inside "suite") with growing numbers.
+// "Never performs work unbounded in a request parameter": the answer arrives within the watchdog and stays small — the
+// service's regular answers are a few hundred bytes (the suite list a few KB); an answer that grows with a number in
+// the request is work chosen by the client. Values grow from 2^10 to 2^24 and a name is dropped at its first violation,
+// so that a defective tree is not driven into huge allocations.
+
+type c19ParamCase struct {
+	Method string `json:"method"`
+	Path   string `json:"path"`
+	Where  string `json:"where"` // query | top | input | suite
+	Name   string `json:"name"`
+	Value  uint64 `json:"value"`
+	AsText bool   `json:"as_text"`
+}
+
+var (
+	argLitRe = regexp.MustCompile(`Args\(\)\.\w+\(\s*"([^"\\]+)"`)
+	peekRe   = regexp.MustCompile(`\b(?:Peek|PeekBytes|Has|GetUint|GetUintOrZero|GetUfloat|GetUfloatOrZero|GetBool|FormValue|QueryParam|Query)\(\s*"([^"\\]+)"`)
+	jsonTag  = regexp.MustCompile("json:\"([^\",]+)")
+)
+
+// discoveredNames reads the parameter names out of the REST layer's source files.
+func discoveredNames() (query []string, fields []string) {
+	repo := os.Getenv("VERIF_REPO")
+	if repo == "" {
+		repo = "/repo"
+	}
+	files, _ := filepath.Glob(filepath.Join(repo, "internal", "app", "api", "*.go"))
+	q, f := map[string]bool{}, map[string]bool{}
+	for _, fn := range files {
+		if strings.HasSuffix(fn, "_test.go") {
+			continue
+		}
+		b, err := os.ReadFile(fn)
+		if err != nil {
+			continue
+		}
+		for _, m := range argLitRe.FindAllSubmatch(b, -1) {
+			q[string(m[1])] = true
+		}
+		for _, m := range peekRe.FindAllSubmatch(b, -1) {
+			q[string(m[1])] = true
+		}
+		for _, m := range jsonTag.FindAllSubmatch(b, -1) {
+			if n := string(m[1]); n != "-" {
+				f[n] = true
+			}
+		}
+	}
+	for n := range q {
+		query = append(query, n)
+	}
+	for n := range f {
+		fields = append(fields, n)
+	}
+	sort.Strings(query)
+	sort.Strings(fields)
+	return
+}
+
+const c19MaxAnswer = 1 << 20 // bytes; regular answers are three orders of magnitude smaller
+
+func checkC19Param(c c19ParamCase) verdict {
+	sv := server()
+	labels := []string{"where=" + c.Where, "name=" + c.Name}
+	val := fmt.Sprint(c.Value)
+	path, method := c.Path, c.Method
+	var body []byte
+	if c.Where == "query" {
+		sep := "?"
+		if strings.Contains(path, "?") {
+			sep = "&"
+		}
+		path += sep + url.QueryEscape(c.Name) + "=" + val
+	} else {
+		var ep string
+		for k, p := range postEndpoints {
+			if p == c.Path {
+				ep = k
+			}
+		}
+		base := baseBody(ep)
+		var v any = c.Value
+		if c.AsText {
+			v = val
+		}
+		switch c.Where {
+		case "top":
+			base[c.Name] = v
+		default:
+			m, _ := base[c.Where].(map[string]any)
+			if m == nil {
+				m = map[string]any{}
+			}
+			m[c.Name] = v
+			base[c.Where] = m
+		}
+		body, _ = json.Marshal(base)
+	}
+	t0 := time.Now()
+	status, rb, err := rawHTTP(sv.addr, method, path, body, 5*time.Second)
+	d := time.Since(t0)
+	if err != nil || d > 3*time.Second {
+		t1 := time.Now()
+		status, rb, err = rawHTTP(sv.addr, method, path, body, 15*time.Second)
+		if d2 := time.Since(t1); err != nil || d2 > 3*time.Second {
+			hang("C19", "discovered-parameters", c, recorders["C19/discovered-parameters"], fmt.Sprintf("%s %s with %s %s=%s: first attempt %v (%v), alone again %v (%v): the normal cost is ~100 us", method, trunc(path, 80), c.Where, c.Name, val, d.Round(time.Millisecond), err, d2.Round(time.Millisecond), err))
+		}
+		labels = append(labels, "slow-once")
+	}
+	if status < 100 || status > 599 {
+		return bad(true, labels, "%s %s: status %d", method, trunc(path, 80), status)
+	}
+	if len(rb) >= c19MaxAnswer {
+		return bad(true, labels, "%s %s with %s parameter %s=%s is answered with %d bytes or more (status %d): the size of the answer, and the work behind it, is chosen by a number in the request", method, trunc(path, 80), c.Where, c.Name, val, len(rb), status)
+	}
+	if !sv.alive() {
+		return bad(true, labels, "the server process died: %s", tailStr(sv.stderr.String(), 800))
+	}
+	if sv.stderr.alarm() {
+		return bad(true, labels, "the server reports an unrecovered panic, a fatal error or a data race: %s", trunc(sv.stderr.String(), 1500))
+	}
+	return ok(true, labels...)
+}
+
+var c19Param = newPart("C19", "discovered-parameters",
+	"enumeration: parameter names taken from the REST layer's own source (string literals of query / form accessors, JSON field tags) x {query parameter of every GET endpoint, field of every POST body at top level / inside input / inside suite} x values 2^10, 2^16, 2^20, 2^22, 2^24 as number and as text; invariant: a complete HTTP response within 3 s (one lone re-measurement), an answer below 1 MiB (regular answers are below a few KB), the process alive, every 50th request followed by the RFC probe; every case distinct and non-trivial",
+	checkC19Param)
+
+func TestC19_DiscoveredParameters(t *testing.T) {
+	defer c19Param.rec().Flush()
+	query, fields := discoveredNames()
+	c19Param.rec().Set("query_names", strings.Join(query, ","))
+	c19Param.rec().Set("field_names", len(fields))
+	values := []uint64{1 << 10, 1 << 16, 1 << 20, 1 << 22, 1 << 24}
+	i := 0
+	run := func(c c19ParamCase) {
+		i++
+		if !ev.Mine(i) {
+			return
+		}
+		c19Param.each(t, c)
+		if i%50 == 0 {
+			sv := server()
+			if st, pb, perr := rawHTTP(sv.addr, "POST", "/hotp/generate", []byte(`{"secret":"GEZDGNBVGY3TQOJQGEZDGNBVGY3TQOJQ","counter":1,"digits":"6","algorithm":"SHA1"}`), 5*time.Second); perr != nil || st != 200 || !strings.Contains(string(pb), `"287082"`) {
+				t.Fatalf("C19/discovered-parameters: probe after %d requests: status %d body %s err %v", i, st, trunc(string(pb), 200), perr)
+			}
+		}
+	}
+	// every name is a candidate query parameter: JSON names too (a handler may read the same name from the query)
+	names := append(append([]string{}, query...), fields...)
+	names = append(names, "size", "length", "len", "count", "n", "limit", "bytes", "repeat", "pad", "width", "iterations", "rounds")
+	seen := map[string]bool{}
+	for _, n := range names {
+		if seen[n] {
+			continue
+		}
+		seen[n] = true
+		for _, p := range []string{"/otp/secret", "/otp/secret?algorithm=SHA512", "/ocra/suites", "/"} {
+			for _, v := range values {
+				run(c19ParamCase{Method: "GET", Path: p, Where: "query", Name: n, Value: v})
+			}
+		}
+	}
+	for _, ep := range []string{"totp-gen", "totp-val", "hotp-gen", "hotp-val", "ocra-gen", "ocra-val", "suite", "url"} {
+		for n := range seen {
+			_ = n
+		}
+		for _, n := range names {
+			for _, where := range []string{"top", "input", "suite"} {
+				if (where != "top") && !strings.HasPrefix(ep, "ocra") && ep != "suite" {
+					continue
+				}
+				for _, v := range []uint64{1 << 16, 1 << 22, 1 << 24} {
+					run(c19ParamCase{Method: "POST", Path: postEndpoints[ep], Where: where, Name: n, Value: v})
+					run(c19ParamCase{Method: "POST", Path: postEndpoints[ep], Where: where, Name: n, Value: v, AsText: true})
+				}
+			}
+		}
+	}
+	c19Param.rec().Exhaustive()
+}
+
+
+// ---------------------------------------------------------------------------
+// Compressed request bodies. The service bounds the work per request by its 1 MiB body limit. If it accepts a
+// Content-Encoding at all (a small compressed well-formed body is answered like the plain one), the limit has to hold for
+// what the body inflates to: a few KB on the wire that inflate to 8 MiB must be refused like the same 8 MiB sent plain.
+// On a tree that does not inflate request bodies every compressed body is undecodable and refused, and the part holds
+// trivially (label encoding-not-supported).
+
+type c19ZipCase struct {
+	Ep       string `json:"ep"`
+	Encoding string `json:"encoding"` // gzip | deflate
+	Inflated int    `json:"inflated_bytes"`
+	Pad      string `json:"pad"` // what fills the body: blanks before the JSON, or a long string field
+}
+
+func deflateBody(enc string, plain []byte) []byte {
+	var buf bytes.Buffer
+	switch enc {
+	case "gzip":
+		w := gzip.NewWriter(&buf)
+		w.Write(plain)
+		w.Close()
+	default:
+		w := zlib.NewWriter(&buf)
+		w.Write(plain)
+		w.Close()
+	}
+	return buf.Bytes()
+}
+
+func checkC19Zip(c c19ZipCase) verdict {
+	sv := server()
+	path := postEndpoints[c.Ep]
+	small, _ := json.Marshal(baseBody(c.Ep))
+	labels := []string{"ep=" + c.Ep, "encoding=" + c.Encoding}
+	hdr := []string{"Content-Encoding: " + c.Encoding}
+	// does the service inflate request bodies at all?
+	stPlain, _, err := rawHTTP(sv.addr, "POST", path, small, 5*time.Second)
+	if err != nil {
+		return bad(true, labels, "POST %s (plain well-formed body): %v", path, err)
+	}
+	stSmall, _, err := rawHTTPWith(sv.addr, "POST", path, hdr, deflateBody(c.Encoding, small), 5*time.Second)
+	if err != nil {
+		return bad(true, labels, "POST %s with a %s-encoded well-formed body: no complete response: %v", path, c.Encoding, err)
+	}
+	supported := stPlain < 400 && stSmall == stPlain
+	// the big body: well-formed JSON of c.Inflated bytes
+	var big []byte
+	if c.Pad == "blanks" {
+		big = append(bytes.Repeat([]byte(" "), c.Inflated-len(small)), small...)
+	} else {
+		b := baseBody(c.Ep)
+		b["comment"] = strings.Repeat("a", c.Inflated-len(small)-14)
+		big, _ = json.Marshal(b)
+	}
+	wire := deflateBody(c.Encoding, big)
+	t0 := time.Now()
+	stBig, rb, err := rawHTTPWith(sv.addr, "POST", path, hdr, wire, 10*time.Second)
+	d := time.Since(t0)
+	if err != nil || d > 5*time.Second {
+		return bad(true, labels, "POST %s with %d bytes of %s that inflate to %d bytes: %v after %v", path, len(wire), c.Encoding, len(big), err, d.Round(time.Millisecond))
+	}
+	if !supported {
+		labels = append(labels, "encoding-not-supported")
+	} else {
+		labels = append(labels, "encoding-supported")
+		if stBig < 400 {
+			return bad(true, labels, "POST %s: %d bytes on the wire (%s) that inflate to %d bytes — eight times the body limit — are processed and answered %d %s; the same body sent plain is refused: the limit does not bound the work", path, len(wire), c.Encoding, len(big), stBig, trunc(string(rb), 80))
+		}
+	}
+	if st, pb, perr := rawHTTP(sv.addr, "POST", "/hotp/generate", []byte(`{"secret":"GEZDGNBVGY3TQOJQGEZDGNBVGY3TQOJQ","counter":1,"digits":"6","algorithm":"SHA1"}`), 5*time.Second); perr != nil || st != 200 || !strings.Contains(string(pb), `"287082"`) {
+		return bad(true, labels, "probe after the compressed request: status %d body %s err %v", st, trunc(string(pb), 200), perr)
+	}
+	if !sv.alive() {
+		return bad(true, labels, "the server process died: %s", tailStr(sv.stderr.String(), 800))
+	}
+	return ok(true, labels...)
+}
+
+var c19Zip = newPart("C19", "compressed-bodies",
+	"complete product: 8 POST endpoints x Content-Encoding {gzip, deflate} x a well-formed body of 8 MiB (leading blanks, or one long extra string field) compressed to a few KB; oracle: if the service answers a small compressed well-formed body like the plain one (it inflates request bodies), the 8 MiB body must be refused as it is when sent plain; in any case a complete response within 5 s and a correct RFC probe afterwards; every case distinct and non-trivial",
+	checkC19Zip)
+
+func TestC19_CompressedBodies(t *testing.T) {
+	defer c19Zip.rec().Flush()
+	i := 0
+	for _, ep := range []string{"totp-gen", "totp-val", "hotp-gen", "hotp-val", "ocra-gen", "ocra-val", "suite", "url"} {
+		for _, enc := range []string{"gzip", "deflate"} {
+			for _, pad := range []string{"blanks", "field"} {
+				i++
+				if ev.Mine(i) {
+					c19Zip.each(t, c19ZipCase{Ep: ep, Encoding: enc, Inflated: 8 << 20, Pad: pad})
+				}
+			}
+		}
+	}
+	c19Zip.rec().Exhaustive()
 }
